@@ -215,13 +215,13 @@ func TestC19_KeyInjective(t *testing.T) {
 		for _, k := range cl.list() {
 			r.Label(k)
 		}
-		r.Case(cl.key(), len(cl) > 0, func() interface{} {
+		r.Case(cl.key(), len(cl) > 0, sampled("keyinjective", 1, func() interface{} {
 			var hh []string
 			for _, x := range hs {
 				hh = append(hh, fmt.Sprintf("%s@%s", x.Name, x.H))
 			}
 			return map[string]interface{}{"triples": fmt.Sprint(ts), "heights": hh}
-		})
+		}))
 	})
 }
 
@@ -393,7 +393,7 @@ func TestC19_PacketStoreReadBack(t *testing.T) {
 			r.Label(k)
 		}
 		r.LabelN("written_keys", written)
-		r.Case(cl.key(), len(cl) > 0, func() interface{} { return fmt.Sprint(ts) })
+		r.Case(cl.key(), len(cl) > 0, sampled("packetstore", 1, func() interface{} { return fmt.Sprint(ts) }))
 	})
 }
 
@@ -759,7 +759,7 @@ func TestC19_ClientStoreReadBack(t *testing.T) {
 				hostile = true
 			}
 		}
-		r.Case(cl.key(), hostile, func() interface{} { return renderSpecs(specs) })
+		r.Case(cl.key(), hostile, sampled("clientstore", 1, func() interface{} { return renderSpecs(specs) }))
 	})
 }
 
